@@ -228,3 +228,75 @@ Contract(
     },
     properties=["C17"],
 )
+
+
+# ---------------------------------------------------------------------------
+# C10: the conditionals of a parsed base: file order, keys 1..n, consequent before the bar
+# ---------------------------------------------------------------------------
+from contracts.c_consistency_sat import BeliefBaseT  # noqa: E402
+from contracts.c_diagnostics import RangeList  # noqa: E402
+from pyvc.logic import LCnd  # noqa: E402
+
+_cx = z3.Const("_cd_x", lib.Ctx)
+
+
+def _this_cond(x):
+    """the conditional written at node x: (consequent | antecedent)"""
+    return L.mk_cnd(lib.sem(lib.child["consequent"](x)), lib.sem(lib.child["antecedent"](x)))
+
+
+# CondsOf(x): the conditionals of a condition list in the order they are written
+CONDS_DEF = [
+    L.Forall(
+        [_cx],
+        [lib.CondsOf(_cx)],
+        lib.CondsOf(_cx) == z3.If(lib.has_condition(_cx), LCnd.concat(LCnd.snoc(LCnd.nil, _this_cond(_cx)), lib.CondsOf(lib.child["condition"](_cx))), LCnd.snoc(LCnd.nil, _this_cond(_cx))),
+        "def.CondsOf",
+    )
+]
+
+Contract(
+    "parser.myVisitor:myVisitor.visitCondition",
+    params={"self": VIS, "ctx": lib.TCtx},
+    returns=TList(TCnd),
+    ensures=lambda c, r: [r.t == lib.CondsOf(c.ctx.t)],
+    axioms=CONDS_DEF,
+    properties=["C10"],
+    note="visit(ctx.condition()) denotes CondsOf of that subtree (TB-antlr: the visitor dispatch); proved: this node's conditional comes first, consequent / antecedent are not swapped",
+)
+
+
+def _vc_inv(s, j, pre):
+    lst = lib.CondsOf(lib.child["condition"](s.ctx.t))
+    d = s._st.env.get("_dc")
+    if not isinstance(d, VDict):
+        return [j == 0]
+    p = z3.Int("_vc_p")
+    return [
+        d.keys == RangeList(z3.IntVal(1), j),
+        L.Forall([p], [LCnd.at(lst, p)], z3.Implies(z3.And(0 <= p, p < j), z3.Select(d.val, p + 1) == LCnd.at(lst, p)), "vc.values"),
+    ]
+
+
+def _vc_post(c, r):
+    d = c.field(r, "conditionals")
+    lst = lib.CondsOf(lib.child["condition"](c.ctx.t))
+    p = z3.Int("_vc_p2")
+    has = lib.has_condition(c.ctx.t)
+    n = z3.If(has, LCnd.len(lst), 0)
+    return [
+        d.keys == RangeList(z3.IntVal(1), n),
+        L.Forall([p], [LCnd.at(lst, p)], z3.Implies(z3.And(has, 0 <= p, p < LCnd.len(lst)), z3.Select(d.val, p + 1) == LCnd.at(lst, p)), "visitConditionals.values"),
+    ]
+
+
+Contract(
+    "parser.myVisitor:myVisitor.visitConditionals",
+    params={"self": VIS, "ctx": lib.TCtx},
+    returns=BeliefBaseT,
+    locals={"_dc": TDict(TCnd), "conditionals": TDict(TCnd)},
+    ensures=_vc_post,
+    loops={0: LoopSpec("{... for (i, c) in enumerate(self.visit(ctx.condition())*", _vc_inv)},
+    properties=["C10"],
+    note="the parsed base's conditionals are keyed 1..n in the order they are written",
+)
